@@ -119,6 +119,15 @@ def main():
             import traceback
             harness_errors.append('selftest failed: %r\n%s' % (e, traceback.format_exc()[-1500:]))
 
+    # direct solver obligations (engine E2): decided inside the harness module with z3, already replayed there
+    direct = []
+    if hasattr(mod, 'direct_obligations') and not a.only:
+        try:
+            direct = list(mod.direct_obligations(tier, seed))
+        except Exception as e:  # noqa
+            import traceback
+            harness_errors.append('direct obligations failed: %r\n%s' % (e, traceback.format_exc()[-1500:]))
+
     obligations = mod.obligations(tier, seed)
     if a.only:
         obligations = [o for o in obligations if a.only in o['name']]
@@ -246,6 +255,23 @@ def main():
         else:
             po['verdict'] = 'inconclusive'
 
+    # direct (z3) obligations
+    direct_samples = []
+    direct_violations = []
+    for d in direct:
+        n_ob += 1
+        if d['verdict'] == 'discharged':
+            n_dis += 1
+        elif d['verdict'] == 'violated':
+            direct_violations.append(d)
+        else:
+            inconclusive.append((d['name'], '; '.join(d.get('problems') or ['inconclusive']), None))
+        direct_samples.append({'obligation': d['name'], 'engine': 'z3 direct encoding', 'verdict': d['verdict'],
+                               'bounds': d.get('bounds', ''), 'smt_queries': d.get('queries', 0),
+                               'solver_time_s': d.get('solver_time_s', 0), 'queries': d.get('samples', []),
+                               'problems': d.get('problems', [])[:10],
+                               'repo_functions_executed_symbolically': d.get('functions', [])})
+
     # report violations
     rc = 0
     os.makedirs(os.path.join(VERIF, 'replays'), exist_ok=True)
@@ -263,6 +289,15 @@ def main():
         print('  obligation=%s args=%s' % (obn, args))
         print('  detail=%s' % json.dumps(rr)[:1200])
         rc = 1
+    for d in direct_violations:
+        h = hashlib.sha1(json.dumps([d['name'], d['violation']], sort_keys=True, default=str).encode()).hexdigest()[:10]
+        rp = os.path.join(VERIF, 'replays', '%s-%s.json' % (prop, h))
+        json.dump({'property': prop, 'obligation': d['name'], 'direct': True, 'violation': d['violation'],
+                   'problems': d.get('problems')}, open(rp, 'w'), indent=1, default=str)
+        print('VIOLATION property=%s replay=%s' % (prop, rp))
+        print('  obligation=%s detail=%s' % (d['name'], json.dumps(d['violation'], default=str)[:1200]))
+        seen.add(h)
+        rc = 1
     for line in known_lines:
         print(line)
     for (label, why, tree) in inconclusive:
@@ -274,7 +309,7 @@ def main():
 
     wall = time.time() - t_start
     total_paths = sum(po['paths'] for po in per_ob.values())
-    total_q = sum(po['solver_queries'] for po in per_ob.values())
+    total_q = sum(po['solver_queries'] for po in per_ob.values()) + sum(int(d.get('queries') or 0) for d in direct)
     samples = []
     for po in per_ob.values():
         samples.append({'obligation': po['name'], 'harness': po['fn'], 'expect': po['expect'], 'verdict': po['verdict'],
@@ -283,6 +318,8 @@ def main():
                         'smt_queries': po['solver_queries'], 'solver_time_s': round(po['solver_time_s'], 2),
                         'cpu_s': round(po['cpu_s'], 1), 'notes': po['notes'][:6],
                         'repo_functions_executed_symbolically': sorted(po['entered'])[:60]})
+    samples = direct_samples + samples
+    replays_done += sum(int(d.get('witnesses_validated') or 0) for d in direct)
     meta = getattr(mod, 'META', {})
     evidence = {
         'property_id': prop, 'tier': tier, 'seed': seed, 'level': LEVEL,
